@@ -187,3 +187,25 @@ def c14_inner_params(x, deterministic=True, scale=1.0, flag=False):
 
 def c14_outer_params(x, deterministic=True, scale=1.0, flag=False):
     return c14_inner_params(x, deterministic=deterministic, scale=scale, flag=flag) * 2.0
+
+
+@onnx_function
+def c14_gated(x, gain=1.0):
+    """`gain` is traced during the outer trace and a raw Python value in the body re-trace."""
+    import jax.numpy as jnp
+
+    return jnp.tanh(x) * gain.astype(x.dtype) if hasattr(gain, "astype") else _c14_fail(gain)
+
+
+def _c14_fail(gain):
+    raise AttributeError("'float' object has no attribute 'astype' (raised only in the body re-trace)")
+
+
+def c14_gated_model(x):
+    import jax.numpy as jnp
+
+    return c14_gated(x, gain=jnp.float32(2.0)) + 1.0
+
+
+def c14_gated_failing(x):
+    return c14_gated(x, gain=0.5) + 1.0
